@@ -254,9 +254,9 @@ add("C05", "c_crypto",
     text="Every mutation that changes a byte yields an error and a nil message from both Decrypt entry points; identity mutations are counted and skipped.",
     note="Key domain: random keys with <= 7 leading zero bytes (keys invariant under the x=0/8 offset make reflection legitimately acceptable); a 'different key' differs inside bytes MTProto 2.0 reads.")
 add("C06", "c_crypto",
-    [T("TestC06", 200000, 2000000, env=P4), T("TestC06Bind", 200000, 2000000, env=P4)],
+    [T("TestC06", 100000, 1000000, env=P4), T("TestC06Lengths", 40, 400, env=P4), T("TestC06Bind", 200000, 2000000, env=P4)],
     pre=["TestRefSelfCheck"],
-    rule="uniform auth keys (random / leading zeros / constant bytes), msg keys, plaintexts, both sides; bind parameters (nonce, temp and perm key ids, session, expiry). non-trivial = every case; distinct by input hash",
+    rule="uniform auth keys (random / leading zeros / constant bytes), msg keys, plaintexts of 0..200, 0..5000 and 2^k +- 40 bytes (k = 5..17), every length 0..4224 per case in TestC06Lengths, both sides; bind parameters (nonce, temp and perm key ids, session, expiry). non-trivial = every case; distinct by input hash",
     technique="differential PBT (rapid) against reference KDFs written from the MTProto 2.0 / 1.0 specification",
     text="MessageKey/Keys/OldKeys/MessageKeyV1/KeysV1/Key.ID/AuxHash equal the reference; the bind message decrypts under the permanent key with the v1 KDF and the reference IGE to bind_auth_key_inner with the drawn fields, msg_key = SHA1(envelope)[4:20], padding < 16.",
     note="Documentation sample vectors are not available offline; anchoring is by OpenSSL IGE vectors and two-way agreement.")
@@ -328,10 +328,10 @@ add("C29", "c_client",
     note="One listed known finding (requests whose transport write fails on a dying connection are failed, not re-sent).",
     assumptions=["each transport frame written by the client is read completely by the peer before the peer acts"])
 add("C30", "c_client",
-    [T("TestC30", 20000, 200000), T("TestC30Load", 2000, 20000, env=CONN)],
-    rule="(a) histories of session notifications through the build-tagged wrappers of onSession/onCDNSession: primary (for the current primary DC), non-primary DCs, CDN, interleaved with primary-DC changes (session.Migrate), PFS on/off; storage records every save; (b) stored sessions with intact / bit-flipped / truncated / extended key bytes and key ids, zeroed or foreign ids, loaded by Client.Run with a dialer that counts calls. non-trivial = a non-primary or CDN notification between two primary ones (a) / a corrupted session (b); distinct by history / mutation",
+    [T("TestC30", 20000, 200000), T("TestC30Concurrent", 20000, 200000), T("TestC30Load", 2000, 20000, env=CONN)],
+    rule="(c) the same notifications in flight: each is a goroutine stopped by the harness-owned storage before its load and before its save, with primary-DC changes and further notifications drawn in between (non-trivial = a migration or a second notification while one is in flight); (a) histories of session notifications through the build-tagged wrappers of onSession/onCDNSession: primary (for the current primary DC), non-primary DCs, CDN, interleaved with primary-DC changes (session.Migrate), PFS on/off; storage records every save; (b) stored sessions with intact / bit-flipped / truncated / extended key bytes and key ids, zeroed or foreign ids, loaded by Client.Run with a dialer that counts calls. non-trivial = a non-primary or CDN notification between two primary ones (a) / a corrupted session (b); distinct by history / mutation",
     technique="stateful PBT (rapid) with a set-of-legitimate-notifications model; corruption-based PBT for loading",
-    text="After every step the stored (DC, key, salt) equals a notification delivered for the DC that was primary when it was delivered (permanent key under PFS); non-primary and CDN notifications never rewrite it; Run fails with the corrupted-key error before any dial whenever SHA1(key)[12:20] != id, and an intact session leads to a dial.",
+    text="After every step the stored (DC, key, salt) equals a notification delivered for the DC that was primary when it was delivered (permanent key under PFS); non-primary and CDN notifications never rewrite it; with notifications in flight the stored record is always the (DC, key, salt) of one notification delivered by a connection to that DC; Run fails with the corrupted-key error before any dial whenever SHA1(key)[12:20] != id, and an intact session leads to a dial.",
     note="Notifications with this_dc = 0 (not sent by an honest server) are not generated.")
 
 
